@@ -331,7 +331,12 @@ class Ctx:
         else:
             ans = self._ex[exe].run(lines)
         self.trace.append({'exe': exe, 'program': list(lines), 'answers': ans})
-        if 'hang' in ans or 'hang?' in ans:
+        if 'hang?' in ans:
+            # the watchdog fired but the open call returned when re-run alone (or could not be re-run): not a verdict
+            raise Inconclusive('watchdog fired on a call that is not reproducibly non-returning (machine overloaded?)')
+        if any(a.startswith('died rc=-9') for a in ans):
+            raise Inconclusive('the executor was killed from outside (SIGKILL)')
+        if 'hang' in ans:
             self.hangs += 1
         return ans
 
